@@ -155,8 +155,8 @@ func shapeJSON(s Shape) trace.M {
 // controls: the plain valid Ethereum transaction and the plain valid Cosmos transaction must be
 // accepted in every mode, otherwise nothing a vector says about "rejected" means anything.
 func (e *Env) controls() {
-	eth := Shape{Msgs: []Elem{{D: 0, Leaf: []string{"eth"}}}, Ext: "eth", Fee: "eq", Gas: "eq", EthType: "legacy"}
-	cos := Shape{Msgs: []Elem{{D: 0, Leaf: []string{"send"}}}, Ext: "none", Sigs: true, Sinfos: true, Fee: "eq", Gas: "eq", EthType: "legacy"}
+	eth := Shape{Msgs: []Elem{{D: 0, Leaf: []string{"eth"}}}, Ext: "eth", Timeout: "zero", Fee: "eq", Gas: "eq", EthType: "legacy"}
+	cos := Shape{Msgs: []Elem{{D: 0, Leaf: []string{"send"}}}, Ext: "none", Sigs: true, Sinfos: true, Timeout: "zero", Fee: "eq", Gas: "eq", EthType: "legacy"}
 	for _, mode := range []string{"check", "recheck", "simulate"} {
 		for _, s := range []Shape{eth, cos} {
 			s.Mode = mode
